@@ -3,6 +3,8 @@ NOTES = ("All checks: ./check <ID> --tier quick|thorough. Exit 0 = held on every
          "allowed), 1 = unlisted violation (VIOLATION line with replay file), 2 = machinery failure (never a verdict). "
          "Known findings live in /verif/known_findings.txt. See DESIGN.md.")
 ENGINES = [
+    {"name": "sr_terminals", "path": "harness/sr_terminals", "serves_properties": ["C09"],
+     "kind_free_text": "stateright 0.31 explicit-state BFS whose next_state replays actions on real terminals; independent second engine for the C09 state graph"},
     {"name": "explore (shuttle)", "path": "harness/sched", "serves_properties": ["C17"],
      "kind_free_text": "shuttle 0.9.3 DfsScheduler over the unmodified src/reference.rs compiled against shuttle::sync via a std shim"},
     {"name": "lifeprobe", "path": "driver/c16_lifetime.py", "serves_properties": ["C16"],
@@ -209,7 +211,7 @@ TEXT = {
                 "per event; numeric correctness is C04/C10/C11/C12's business, not this check's.",
     },
     "C09": {
-        "engine": "rrtk-mc c09-link-bfs + c09-read-values",
+        "engine": "rrtk-mc c09-link-bfs + c09-read-values; thorough: harness/sr_terminals (stateright BFS cross-check)",
         "technique": "explicit-state BFS over all reachable link configurations of 2..6 (thorough 8) real terminals x all connect/disconnect actions; exhaustive presence x timestamp-order enumeration for the read clause",
         "text": "Every reachable matching of n<=6 (8) terminals x every connect(i,j)/disconnect(i) is executed on real "
                 "terminals (state rebuilt by witness replay) and compared with the matching model; no panic, symmetric "
